@@ -217,6 +217,23 @@ func (e *Engine) addHarnessAPI(p string) {
 		v := c.args[1]
 		if iv, ok := v.(Iface); ok {
 			v = iv.V
+			if sl, isSl := v.(Slice); isSl && iv.T != nil {
+				// []byte: snapshot the content now
+				if st, ok := iv.T.T.Underlying().(*types.Slice); ok {
+					if b, ok := st.Elem().Underlying().(*types.Basic); ok && b.Kind() == types.Uint8 {
+						if sl.ID == 0 {
+							v = ""
+						} else {
+							v = mkStr(c.s.obj(sl.ID).slots[sl.Off : sl.Off+sl.Len])
+						}
+					}
+				}
+			}
+			if u, ok := v.(uint64); ok && iv.T != nil {
+				if w, signed, isInt := intInfo(iv.T.T); isInt && signed {
+					v = NativeVal{sext(u, w)}
+				}
+			}
 		}
 		c.s.observ = append(c.s.observ, ObsRec{c.str(0), v})
 		return nil
